@@ -291,6 +291,12 @@ def make_bytes(I, args, kind):
         I.raise_py("builtins.TypeError", "string argument without an encoding")
     if isinstance(a, VNone):
         I.raise_py("builtins.TypeError", "cannot convert None to bytes")
+    from .values import VAny as _VAny
+    if isinstance(a, _VAny):
+        # bytes of state with an unknown history: arbitrary bytes of arbitrary length (the same for the same operand on one path)
+        I.any_child(a, "bytes")
+        n = opaque_int(I, "any_len", [VStr(t=a.t)], 0, MAXLEN)
+        return opaque_bytes(I, "any_bytes", [VStr(t=a.t)], n.as_int()).with_kind(kind)
     items = I.iterate(a)
     return VBytes([Lit([I.to_byte(x) for x in items])], kind)
 
